@@ -36,6 +36,13 @@ def replay(info, ce):
             for xi in (0.0, 0.05, 0.6):
                 cases.append((rng.randn(n), dt, np.array([0.3, 1.7]), xi))
                 cases.append((rng.randn(n), dt, np.array([0.0, 0.5]), xi))
+    # records that start at rest: one or several exactly-zero samples, then data (zero padding at the start is common)
+    for k in (1, 3):
+        for xi in (0.0, 0.05):
+            a0 = rng.randn(14)
+            a0[:k] = 0.0
+            cases.append((a0, 0.02, np.array([0.3, 1.7]), xi))
+            cases.append((a0, 0.02, np.array([0.0, 0.5]), xi))
     # the absolute time scale must not matter: a very short record step with periods in the same ratio (T/dt = 50, 200)
     for xi in (0.0, 0.05):
         cases.append((rng.randn(12), 1e-10, np.array([5e-9, 2e-8]), xi))
